@@ -453,6 +453,8 @@ outer:
 					scs[gi] = prog.GenScenario(e.Prog, r, ids[gi], scTag, k+gi)
 				}
 				sc := scs[0]
+				// seeded choice of a perturbation profile for the scheduler's hook points
+				rt.SetPerturb([]int{0, 1, 2, 3, 0, 2}[int(prog.Mix(seed^hashStr(e.Name)^uint64(k)*7919)%6)])
 				if pf != nil {
 					fmt.Fprintf(pf, "BEGIN %s %s %d\n", e.Name, tag, k)
 				}
